@@ -227,7 +227,7 @@ def equality_and_transpose_spellings(ctx, seed):
     import rsome as rso
     from rsome import ro, dro, E
     r = np.random.default_rng(seed)
-    kind = str(r.choice(['E-equality', 'biaffine-transpose']))
+    kind = str(r.choice(['E-equality', 'biaffine-transpose', 'term-order']))
     if kind == 'E-equality':
         k = int(r.integers(1, 3)); S = int(r.integers(1, 3))
         w = r.choice([0.5, 1.0, 2.0], k); g = r.choice([1.0, 2.0], k); c = float(r.choice([-2.0, -0.5, 1.0, 3.0]))
@@ -249,6 +249,18 @@ def equality_and_transpose_spellings(ctx, seed):
                 m.st(x - E(w @ y) == -c)
             return m
         spells = ['two-inequalities', 'equality', 'terms-moved', 'negated']
+    elif kind == 'term-order':
+        # a sum does not depend on the order of its terms: E(x) + z, z + E(x), 1*z + E(x) (z outside the expectation: worst case)
+        S = int(r.integers(1, 3)); hi = float(r.choice([1.0, 2.0])); c0 = float(r.choice([0.0, 1.0]))
+
+        def build(sp):
+            m = dro.Model(S); x = m.dvar(2); y = m.dvar(); z = m.rvar(2)
+            fs = m.ambiguity(); fs.suppset(z >= 0, z <= hi); fs.exptset(E(z) == hi / 2)
+            m.minsup(y, fs); m.st(x == c0)
+            e = {'E(x)+z': lambda: E(x) + z, 'z+E(x)': lambda: z + E(x), '1*z+E(x)': lambda: 1 * z + E(x), 'x+z': lambda: x + z, 'z+x': lambda: z + x}[sp]()
+            m.st(y >= e.sum())
+            return m
+        spells = ['E(x)+z', 'z+E(x)', '1*z+E(x)', 'x+z', 'z+x']
     else:
         rows, cols = [(2, 3), (3, 2), (2, 4)][int(r.integers(3))]
         X0 = r.choice([-1.0, 0.5, 1.0, 2.0], (rows, cols)); cc = r.choice([0.0, 1.0, -1.0], (rows, cols)); rad = float(r.choice([0.5, 1.0]))
